@@ -398,8 +398,39 @@ class VStr(V):
             return VStr(self.s)
         return NotImplemented
 
+    def py_contains(self, it, ctx, item):
+        if isinstance(item, VStr):
+            return item.s in self.s
+        raise Undecided("`in` str with symbolic item")
+
+    def py_getitem(self, it, ctx, idx):
+        if isinstance(idx, VNum) and idx.concrete() is not None:
+            return VStr(self.s[idx.concrete()])
+        if isinstance(idx, VSlice):
+            f = lambda x: None if x is NONE else x.concrete()
+            return VStr(self.s[slice(f(idx.start), f(idx.stop), f(idx.step))])
+        raise Undecided("str index")
+
+    def py_iter(self, it, ctx):
+        return [VStr(ch) for ch in self.s]
+
     def py_getattr(self, it, ctx, name):
-        if name in ("format", "join", "lower", "upper", "strip"):
+        if name == "join":
+            def join(it, ctx, args, kwargs):
+                parts = it.iterate(ctx, args[0])
+                if not all(isinstance(p, VStr) for p in parts):
+                    return VStr("<joined>")
+                return VStr(self.s.join(p.s for p in parts))
+            return VBuiltin("str.join", join)
+        if name in ("split", "rsplit"):
+            def split(it, ctx, args, kwargs):
+                sep = args[0].s if args else None
+                mx = args[1].concrete() if len(args) > 1 else -1
+                return VList([VStr(x) for x in getattr(self.s, name)(sep, mx)])
+            return VBuiltin("str." + name, split)
+        if name == "replace":
+            return VBuiltin("str.replace", lambda it, ctx, args, kwargs: VStr(self.s.replace(args[0].s, args[1].s)))
+        if name in ("format", "lower", "upper", "strip"):
             return VBuiltin(f"str.{name}", lambda it, ctx, args, kwargs: VStr(self.s))
         if name == "startswith":
             return VBuiltin("str.startswith", lambda it, ctx, args, kwargs: VBool(self.s.startswith(args[0].s)))
